@@ -1,5 +1,5 @@
 SPECIFICATION PSpec
 CONSTANTS Names = {"a", "b"}
-          PathLen = 22
+          PathLen = 26
 INVARIANT Emit
 CHECK_DEADLOCK FALSE
